@@ -22,5 +22,10 @@ Z == <<6,1,2,4,5>>
 mcSetupP == << [l |-> B, cr |-> TRUE], [l |-> C, cr |-> FALSE], [l |-> D, cr |-> FALSE] >>
 mcGensPQ   == << NewCrawl(<< [src |-> D, tgts |-> <<Z>>] >>), NewPagesQuery(PsA, FALSE) >>
 mcGensPF11 == << NewCrawl(<< [src |-> D, tgts |-> <<Z>>] >>), NewRule(A, Path1), NewPagesQuery(PsA, FALSE) >>
+mcGensSlow  == << NewCrawl(Links0), NewNetSlowQuery(TRUE, FALSE) >>
+mcGensSlowI == << NewCrawl(Links0), NewNetSlowQuery(FALSE, TRUE) >>
+mcGensSF11  == << NewCrawl(Links0), NewRule(A, Path1), NewNetSlowQuery(TRUE, FALSE) >>
+mcGensTop   == << NewCrawl(Links0), NewCrawl(<< [src |-> D, tgts |-> <<Z>>] >>), NewTopQuery(PsA, 2, Unlimited) >>
+mcGensTopAll == << NewCrawl(Links0), NewCrawl(<< [src |-> D, tgts |-> <<Z>>] >>), NewTopQuery(PsA, 1000, 1) >>
 mcGensF11 == << NewCrawl(Links0), NewRule(A, Path1), NewNetQuery(TRUE, FALSE) >>
 =============================================================================
